@@ -73,7 +73,18 @@ World5 == [name |-> "closed-asym-shared-places",
               \* a pair whose pickup can be made at two PLACES (location 2 or 3, both all day): which one is cheaper depends on the tour
               [kind |-> "pd", p |-> [loc |-> 2, locs |-> <<2, 3>>, dur |-> 1, tws |-> << <<0, 100>>, <<0, 100>> >>],
                               d |-> [loc |-> 3, dur |-> 1, tws |-> << <<0, 100>> >>], q |-> 1, value |-> 2] >>]
-FixedWorlds == <<World1, World2, World3, World4, World5>>
+\* waiting is paid (cost objective), windows of a place are NOT listed in the order of time: the near job can only be served cheaply
+\* in its second-listed (early) window; in the first-listed (late) one it costs more than a far job does
+World6 == [name |-> "closed-late-window-first",
+  d |-> << <<0, 2, 9>>, <<2, 0, 8>>, <<9, 8, 0>> >>, sloc |-> 1, closed |-> TRUE, eloc |-> 1, shiftEnd |-> 300, cap |-> 4,
+  fixed |-> 0, cd |-> 1, ct |-> 1,
+  jobs |-> << S(3, 1, << <<0, 200>> >>, "del", 1, 0),
+              S(2, 1, << <<60, 80>>, <<0, 20>> >>, "del", 1, 0),
+              S(3, 1, << <<0, 200>> >>, "pick", 1, 0),
+              S(2, 1, << <<90, 95>>, <<0, 30>> >>, "pick", 1, 1),
+              S(3, 2, << <<0, 200>> >>, "del", 1, 2),
+              S(2, 0, << <<0, 200>> >>, "svc", 0, 1) >>]
+FixedWorlds == <<World1, World2, World3, World4, World5, World6>>
 \* seed dependent worlds produced by the driver (same record shape), appended to the fixed ones
 ExtraWorlds == IF "EXTRAWORLDS" \in DOMAIN IOEnv /\ IOEnv.EXTRAWORLDS # "" THEN ndJsonDeserialize(IOEnv.EXTRAWORLDS) ELSE <<>>
 Worlds == FixedWorlds \o ExtraWorlds
